@@ -18,7 +18,11 @@ SD2 == ClampedDirs({2, 3}, <<R(1,4), R(3,4)>>, 2) \cup UniformDirs({2}, 1)
 SurfSet == IF SurfMode = 0 THEN {} ELSE
   IF SurfMode = 1 THEN Surfaces(SD1, SD1, {3}, BOOLEAN, Seed)
   ELSE Surfaces(SD1 \cup SD2, SD1, {3}, BOOLEAN, Seed) \cup Surfaces(SD1, SD2, {3}, BOOLEAN, Seed)
-Shapes == CurveSet \cup SurfSet
+\* non-normalised surfaces whose u and v ranges differ (parameters of one direction lie outside the other direction's range)
+RawU == <<2, AffineKV(MkClamped(2, <<Half>>, <<1>>), RI(3), RI(0))>>
+RawV == <<1, AffineKV(MkClamped(1, <<Half>>, <<1>>), RI(2), RI(-1))>>
+RawSurf == IF SurfMode = 0 THEN {} ELSE Surfaces({RawU}, {RawV}, {3}, BOOLEAN, Seed) \cup Surfaces({RawV}, {RawU}, {3}, {FALSE}, Seed)
+Shapes == CurveSet \cup SurfSet \cup RawSurf
 Init == sh \in Shapes /\ out = [op |-> "init"]
 
 MaxDeg == IF PDim(sh) = 1 THEN sh.deg[1] ELSE IMax(sh.deg[1], sh.deg[2])
